@@ -26,9 +26,9 @@ def obligations(tier, ctx):
         for op in OPS:
             obs.append(Ob(name=f"{op}_n{n}", params=params, pre=pre, call=f"H.step({op!r}, {n}, {cl}, {ll}, now, d1, t, max_age)",
                           backend="P", timeout=120, family="session store step"))
-        params2 = [(x, "int") for x in cs + ls] + [("now", "int"), ("d1", "int"), ("t", "int")]
+        params2 = [(x, "int") for x in cs + ls] + [("now", "int"), ("d1", "int"), ("t", "int"), ("idsel", "int")]
         for op in ("initialize", "initialize_sid", "request", "request_unknown", "request_failing", "notification_unknown"):
-            obs.append(Ob(name=f"handler_{op}_n{n}", params=params2, pre=pre, call=f"H.handler_step({op!r}, {n}, {cl}, {ll}, now, d1, t)",
+            obs.append(Ob(name=f"handler_{op}_n{n}", params=params2, pre=pre + ["0 <= idsel <= 4"], call=f"H.handler_step({op!r}, {n}, {cl}, {ll}, now, d1, t, idsel)",
                           backend="P", timeout=120, family="protocol handler step"))
     obs.append(Ob(name="unique_ids", params=[("x", "int")], pre=["x == 0"], call="H.unique_ids(5)", backend="P", timeout=60, family="id generation"))
     from symcheck.runner import mirror
